@@ -348,3 +348,44 @@ func vfC01Scenario(tlsSession bool) {
 	}
 	_ = closing
 }
+
+//vf:assume C01-after-refusal: position on a connection, after a request the proxy answered itself: the first request is a POST to localhost (refused with 403, localhost denied) carrying a body of 3 symbolic bytes (Content-Length, or chunked in one or two chunks); the second is a GET or a POST with a 3-byte body to example.com: it is forwarded with its own method, target and body, and nothing else is forwarded
+
+//vf:harness property=C01 nopanic reach=c01-after-refusal-cl,c01-after-refusal-chunked steps=8000000
+func vfH_C01_after_refusal() {
+	cfg := HTTPProxyConfig{}
+	cfg.Name = "fw"
+	cfg.ProxyLocalhost = DenyProxyLocalhost
+	hp := vfNewHTTPProxy(cfg)
+	rt := hp.transport.(*vfRoundTripper)
+	refusedBody := vfrt.String("refused-body", 3)
+	var first string
+	switch vfrt.Choice("refused-framing", 3) {
+	case 0:
+		vfrt.Reach("c01-after-refusal-cl")
+		first = "POST http://localhost/admin HTTP/1.1\r\nHost: localhost\r\nContent-Length: 3\r\n\r\n" + refusedBody
+	case 1:
+		vfrt.Reach("c01-after-refusal-chunked")
+		first = "POST http://localhost/admin HTTP/1.1\r\nHost: localhost\r\nTransfer-Encoding: chunked\r\n\r\n3\r\n" + refusedBody + "\r\n0\r\n\r\n"
+	case 2:
+		first = "POST http://localhost/admin HTTP/1.1\r\nHost: localhost\r\nTransfer-Encoding: chunked\r\n\r\n1\r\n" + refusedBody[:1] + "\r\n2\r\n" + refusedBody[1:] + "\r\n0\r\n\r\n"
+	}
+	method, body, framing := "GET", "", ""
+	if vfrt.Choice("second-has-body", 2) == 1 {
+		method, body, framing = "POST", vfrt.String("body", 3), "Content-Length: 3\r\n"
+	}
+	second := method + " http://example.com/next?q=1 HTTP/1.1\r\nHost: example.com\r\n" + framing + "\r\n" + body
+	conn := martian.NewVfConn([]byte(first + second))
+	if vfrt.Choice("one-byte-reads", 2) == 1 {
+		conn.Chunk = 1
+	}
+	martian.VfServeConn(hp.proxy, conn)
+	vfrt.Assert(strings.HasPrefix(conn.Out.String(), "HTTP/1.1 403"), "after-refusal/first-request-refused")
+	vfrt.Assert(rt.calls == 1, "after-refusal/exactly-the-second-request-is-forwarded")
+	if rt.calls != 1 {
+		return
+	}
+	got := rt.reqs[0]
+	vfrt.Assert(got.Method == method && got.URL.Host == "example.com" && got.URL.RequestURI() == "/next?q=1", "after-refusal/method-and-target")
+	vfrt.Assert(string(rt.bodies[0]) == body, "after-refusal/body-bytes")
+}
